@@ -345,6 +345,32 @@ def rule_null_document_tag(ctx, fx, config):
     ctx.floor("ITER.null-document-guards", n, 2, config)
 
 
+def rule_peek_next_agree(ctx, fx, config):
+    """SIBLING:peek-next-agree — the document iterators classify a failure by *where* it surfaces: an error from their own
+    `peek()` between documents is a syntax error and ends the stream, an error from inside the target's `Deserialize` is a
+    document error and is recovered from.  That is only sound if `peek` rejects whatever `next` rejects: a check applied by
+    `Events::next` alone lets `peek` accept the event and surfaces the syntax error inside the document."""
+    nx = fx.fn("<live_events::LiveEvents as de::Events>::next")
+    pk = fx.fn("<live_events::LiveEvents as de::Events>::peek")
+
+    def fallible(f):
+        out = set()
+        for b, t in f.calls():
+            h = fx.local_callee(t)
+            if h is not None and h.kind != "closure" and "Result<" in (h.local_ty(0) or ""):
+                out.add(h.name)
+        for b, i, adt, var, fl, ops, s_ in aggregates(f):
+            if adt == "de_error::Error":
+                out.add("Error::" + str(var))
+        return out
+    a, b = fallible(nx), fallible(pk)
+    ctx.saw(nx)
+    ctx.saw(pk)
+    ctx.check(a <= b, "SIBLING", "C11:SIBLING:peek-next-agree", "every failing step of Events::next is also a step of Events::peek (%s)" % ", ".join(sorted(a)),
+              "`Events::next` can fail in %s, which `peek` does not apply: the iterators' between-documents `peek()` accepts the event, the error surfaces inside the document and the stream continues after a syntax error" % sorted(a - b), config, ctx.where(nx))
+    ctx.floor("SIBLING.fallible-steps", len(a), 2, config)
+
+
 def run(ctx):
     for config in ctx.configs:
         fx = ctx.facts(config)
@@ -356,3 +382,4 @@ def run(ctx):
         rule_scope(ctx, fx, config)
         rule_single(ctx, fx, config)
         rule_iter(ctx, fx, config)
+        rule_peek_next_agree(ctx, fx, config)
